@@ -52,6 +52,20 @@ def cell(nameclass, form, hooks, local, strict):
             exp = ("out", "[HM:%s:[1, 2]]" % name)
         else:
             exp = ("err", "HelperNotFound")
+    elif form in ("hash", "hashhtml"):
+        # a call with NAMED arguments only is a helper call like any other call with arguments: never a field read
+        t = ("{{%s k=arr}}" if form == "hash" else "{{{%s k=arr j=1}}}") % name
+        hs = "|k=[1, 2]" if form == "hash" else "|j=1,k=[1, 2]"   # the marking helper lists the hash in key order
+        if local:
+            exp = ("out", "[L:%s:%s]" % (name, hs))
+        elif nameclass == "builtin":
+            exp = ("err", "ParamNotFoundForName")
+        elif has_helper:
+            exp = ("out", "[U:%s:%s]" % (name, hs))
+        elif hooks:
+            exp = ("out", "[HM:%s:%s]" % (name, hs))
+        else:
+            exp = ("err", "HelperNotFound")
     elif form == "block":
         t = "{{#%s arr}}B{{/%s}}" % (name, name)
         if local:
@@ -122,7 +136,7 @@ def generate(rng, n, tier="quick"):
     k = 0
     data_base = {"fld": "F", "both": "F", "arr": [1, 2], "one": [0], "w": {}, "fls": False, "nul": None}
     for nameclass, form, hooks, local, strict in itertools.product(
-            ["builtin", "user", "field", "both", "neither", "nullfield"], ["bare", "args", "block", "chain", "chainnl", "rawblk", "sub", "dot", "this", "brk"],
+            ["builtin", "user", "field", "both", "neither", "nullfield"], ["bare", "args", "hash", "hashhtml", "block", "chain", "chainnl", "rawblk", "sub", "dot", "this", "brk"],
             [False, True], [False, True], [False, True]):
         if local and form in ("dot", "this", "brk"):
             pass
@@ -175,6 +189,21 @@ def generate(rng, n, tier="quick"):
         case = session(cfg, templates, {"api": "render", "name": "main"}, data)
         case["id"] = "%s-%s" % (ID, idn)
         out.append((case, {"cell": [idn], "expect": list(exp)}))
+    # the family of the Lean theorem C14.helper_wins_over_field_at_source: L ++ {{name}} ++ R for any identifier, a marking helper
+    # registered under it and a field of that name in the data: the helper's line, not the field (closed form, exact)
+    from .C03 import _no_open, rand_text, thm_left
+    from .C02 import ident_name
+    tr = rng.fork("thm")
+    for j in range(40 if tier == "quick" else 1500):
+        r = tr.fork(j)
+        L = thm_left(r)
+        R = _no_open(rand_text(r, r.range(0, 8)))
+        nm = ident_name(r)
+        tag = r.pick(["U", "M", "tag-1", "\u00e9"])
+        case = session({"escape": r.pick(["none", "html"]), "helpers": [{"name": nm, "kind": "mark", "tag": tag}]},
+                       [("main", L + "{{%s}}" % nm + R)], {"api": "render", "name": "main"}, {nm: r.pick(["FIELD", 7, None, {"a": 1}])})
+        case["id"] = "%s-thm%04d" % (ID, j)
+        out.append((case, {"cell": ["thm-%d" % j], "expect": ["out", L + "[%s:%s:]" % (tag, nm) + R]}))
     return out
 
 
